@@ -1692,7 +1692,8 @@ def _gen_value(rnd):
     if rnd.random() < 0.6:
         val = rnd.choice(['utf-8', '1', '2', 'a', 'UTF-8', 'x.y'])
         return val, val
-    val = rnd.choice(['a b', 'x;y', 'k=v', 'say "hi"', 'back\\slash', '', 'plain', 'q=0.1'])
+    # (an escaped quote FOLLOWED by ';' inside the quoted string: the splitter must discount escaped quotes when it looks for the closing quote)
+    val = rnd.choice(['a b', 'x;y', 'k=v', 'say "hi"', 'back\\slash', '', 'plain', 'q=0.1', 'a";q=0.1;b', 'say "hi"; then', '";q=0', 'x\\";y'])
     return '"' + val.replace('\\', '\\\\').replace('"', '\\"') + '"', val
 
 
